@@ -57,12 +57,16 @@ def statement_limit(ck):
         return 262144
 
 
-def run(ck, names=("incr", "bind"), deltas=(-2, 0, 56), profile="debug", time_limit=300):
+def run(ck, names=("incr", "bind"), deltas=(-2, 0, 56), profile="debug", time_limit=300, far=None):
     cli = ck.build_cli(profile)
     lim = statement_limit(ck)
     tmp = tempfile.mkdtemp(prefix="c18cli-", dir=os.path.join(CACHE))
     cov = ck.extra_cov.setdefault("cli_statement_limit", {"limit": lim, "cases": []})
     try:
+        if far is None:
+            far = FAR
+        if far:
+            run_far(ck, cli, tmp, cov, cases=far)
         for name in names:
             pro, stmt, epi, want, fixed = FILLERS[name]
             for d in deltas:
@@ -107,9 +111,65 @@ def run(ck, names=("incr", "bind"), deltas=(-2, 0, 56), profile="debug", time_li
             pass
 
 
+# (blocks, makes per block, filler statements): one function whose liveness term (2*blocks + ops) * locals is far
+# above the limit while every other cap is respected; the first sits just past 2^32 (seed C18-f1: the term computed
+# in u32 - the debug build panics in the resolver, the release build wraps to 24 286, prints no warning and runs the
+# full analyses on an over-limit program), the second well inside the next wrap
+FAR = ((300, 200, 11275), (400, 200, 30000))
+
+
+def far_program(blocks, makes, filler):
+    out = ["make total get 0\n", "total get total add 1\n" * filler]
+    k = 0
+    for b in range(blocks):
+        out.append("start\n")
+        out.append("".join(f"make v{i} get {i}\n" for i in range(k, k + makes)))
+        k += makes
+        if b + 1 == blocks:
+            out.append(f"total get total add v{k - 1}\n")
+        out.append("end\n")
+    out.append("shout(total)\n")
+    return "".join(out), str(filler + k - 1)
+
+
+def run_far(ck, cli, tmp, cov, cases=FAR, time_limit=300):
+    for blocks, makes, filler in cases:
+        text, want = far_program(blocks, makes, filler)
+        path = os.path.join(tmp, f"far_{blocks}_{makes}_{filler}.ns")
+        with open(path, "w") as f:
+            f.write(text)
+        try:
+            p = subprocess.run([cli, path], capture_output=True, timeout=time_limit)
+            rc, out, err = p.returncode, p.stdout.decode(errors="replace"), p.stderr.decode(errors="replace")
+        except subprocess.TimeoutExpired:
+            rc, out, err = "timeout", "", ""
+        os.unlink(path)
+        ck.evaluations += 1
+        ck.count("cli_liveness_far_cases")
+        lines = out.strip().splitlines()
+        warned = "resource limit" in out
+        ok = rc == 0 and lines[-1:] == [want] and warned
+        cov["cases"].append({"filler": "liveness-far", "blocks": blocks, "makes": makes, "statements": filler, "exit": rc,
+                             "warned": warned, "ok": ok})
+        if ok:
+            ck.nontrivial_case(f"cli-far {blocks} {makes} {filler}")
+            continue
+        what = (f"shipped binary on one function with {blocks * makes} variables in {blocks} blocks and {filler} further "
+                f"statements (liveness term far above the limit, every other cap respected): exit {rc}, last line "
+                f"{(lines[-1] if lines else '')[:60]!r} (expected {want!r}), resource-limit warning "
+                f"{'present' if warned else 'absent'} (expected present); stderr: "
+                f"{err.strip().splitlines()[0][:160] if err.strip() else ''}")
+        ck.report_violation({"kind": "impl-vs-oracle", "family": "cli-statements", "what": what,
+                             "generator": {"far": [blocks, makes, filler]},
+                             "requests": [f"cli-far {blocks} {makes} {filler}"], "signature": {"cli_far": blocks}})
+
+
 def replay(ck, data):
     g = data.get("generator") or {}
     if not g:
         return None
-    run(ck, names=(g["filler"],), deltas=(g["n"] - statement_limit(ck),))
+    if "far" in g:
+        run(ck, names=(), far=(tuple(g["far"]),))
+        return 1 if ck.violations else 0
+    run(ck, far=(), names=(g["filler"],), deltas=(g["n"] - statement_limit(ck),))
     return 1 if ck.violations else 0
